@@ -263,7 +263,7 @@ struct Sim {
     cas_spurious: u64,
     chooses: u64,
     finished: Option<Outcome>,
-    log: VecDeque<String>,
+    log: VecDeque<(u64, usize, &'static str, u64, u64, u64)>,
     event_seq: u64,
 }
 
@@ -297,7 +297,7 @@ fn fnv(h: u64, x: u64) -> u64 {
 const LOG_TAIL: usize = 96;
 
 impl Sim {
-    fn log_event(&mut self, tid: usize, what: &str, loc: u64, val: u64, extra: u64) {
+    fn log_event(&mut self, tid: usize, what: &'static str, loc: u64, val: u64, extra: u64) {
         self.event_seq += 1;
         let mut h = self.rep_fingerprint;
         h = fnv(h, tid as u64);
@@ -312,7 +312,7 @@ impl Sim {
             if self.log.len() >= LOG_TAIL && !self.cfg.trace {
                 self.log.pop_front();
             }
-            self.log.push_back(format!("#{} T{} {} L{} v={:#x} x={}", self.event_seq, tid, what, loc, val, extra));
+            self.log.push_back((self.event_seq, tid, what, loc, val, extra));
         }
     }
 
@@ -1001,7 +1001,7 @@ pub fn stamp() -> u64 {
 }
 
 /// Record a harness level event in the run's log/fingerprint.
-pub fn note(what: &str, a: u64, b: u64) {
+pub fn note(what: &'static str, a: u64, b: u64) {
     let me = me();
     let mut g = lock();
     g.as_mut().unwrap().log_event(me, what, a, b, 0);
@@ -1234,6 +1234,15 @@ pub fn spin_hint() {
     yield_point(0x7ff);
 }
 
+static VIRTUAL_PID: core::sync::atomic::AtomicU32 = core::sync::atomic::AtomicU32::new(4242);
+/// the process id simulated code observes (a function of the scenario, never the real pid)
+pub fn virtual_pid() -> u32 {
+    VIRTUAL_PID.load(Ordering::Relaxed)
+}
+pub fn set_virtual_pid(p: u32) {
+    VIRTUAL_PID.store(p, Ordering::Relaxed)
+}
+
 pub fn now_ns() -> u64 {
     let g = lock();
     g.as_ref().unwrap().now_ns
@@ -1385,6 +1394,6 @@ pub fn run<F: FnOnce() + Send + 'static>(cfg: RunCfg, decisions: Decisions, body
         deviations: s.devs.clone(),
         sim_time_ns: s.now_ns - 1_000_000_000,
         threads: s.threads.len(),
-        log_tail: s.log.iter().cloned().collect(),
+        log_tail: s.log.iter().map(|(seq, tid, what, loc, val, extra)| format!("#{} T{} {} L{} v={:#x} x={}", seq, tid, what, loc, val, extra)).collect(),
     }
 }
